@@ -3,6 +3,7 @@ import SlugModel.Lemmas.TrEq_isRegular
 import SlugModel.Lemmas.TrEq_isDirectory
 import SlugModel.Lemmas.TrEq_isSymlink
 import SlugModel.Lemmas.TrEq_isTypeX
+import SlugModel.Props.C15
 /-!
 # C15 (tie by translation)
 
@@ -43,5 +44,43 @@ theorem C15_tie_isSymlink (i : Go.UnpackInfo) (e : Entry) (h : e.typ = i.typefla
 theorem C15_tie_isTypeX (i : Go.UnpackInfo) (e : Entry) (h : e.typ = i.typeflag) :
     Gen.isTypeX i = e.isTypeX :=
   gen_isTypeX i e h
+
+/-! ### The property, stated over the translated function -/
+
+/-- **C15_gen_type_gate.** The Go function `NewUnpackInfo` (internal/unpackinfo/unpackinfo.go), as translated,
+fails — whatever the filesystem, the destination and the entry's name — for every tar type flag other than the
+six supported ones: `'0'` and NUL (regular file), `'5'` (directory), `'2'` (symbolic link), `'x'` and `'g'`
+(pax extended headers).  Hard links, devices, fifos and every other type are refused rather than dropped. -/
+theorem C15_gen_type_gate (fs : FS) (dst name : Str) (typ : Char)
+    (h : typ ≠ '0' ∧ typ ≠ Char.ofNat 0 ∧ typ ≠ '5' ∧ typ ≠ '2' ∧ typ ≠ 'x' ∧ typ ≠ 'g') :
+    Gen.newUnpackInfo fs dst name typ =
+      (({ path := [], typeflag := Char.ofNat 0 } : Go.UnpackInfo), true) := by
+  obtain ⟨h0, hA, h5, h2, hx, hg⟩ := h
+  have hg' := gen_newUnpackInfo fs dst
+    { name := name, typ := typ, mode := 0, mtime := 0, link := [], body := [] }
+  simp only at hg'
+  rw [hg', newUnpackInfo_unsupported]
+  simp [Entry.supported, Entry.isDir, Entry.isSymlink, Entry.isRegular, Entry.isTypeX,
+    tDir, tSymlink, tReg, tRegA, tXGlobal, tXHeader, h0, hA, h5, h2, hx, hg]
+
+/-- **C15_gen_type_gate_conv.** Read the other way: a header for which the translated `NewUnpackInfo` returns
+without error carries one of the six supported type flags, and the returned `UnpackInfo` carries the same flag. -/
+theorem C15_gen_type_gate_conv (fs : FS) (dst name : Str) (typ : Char) (info : Go.UnpackInfo)
+    (h : Gen.newUnpackInfo fs dst name typ = (info, false)) :
+    (typ = '0' ∨ typ = Char.ofNat 0 ∨ typ = '5' ∨ typ = '2' ∨ typ = 'x' ∨ typ = 'g') ∧
+    info.typeflag = typ := by
+  refine ⟨?_, ?_⟩
+  · apply Classical.byContradiction
+    intro hn
+    simp only [not_or] at hn
+    rw [C15_gen_type_gate fs dst name typ hn] at h
+    simp at h
+  · have hg' := gen_newUnpackInfo fs dst
+      { name := name, typ := typ, mode := 0, mtime := 0, link := [], body := [] }
+    simp only at hg'
+    rw [hg'] at h
+    split at h
+    · have := (Prod.mk.inj h).1; rw [← this]
+    · simp at h
 
 end Slug
